@@ -19,7 +19,7 @@ RULE = ('corpus: every clause shape with 0..3 variables that occur only inside h
         'an order-controlled stand-in; every call is a choice point and EVERY permutation of its elements is explored at '
         'one call site (thorough: at every pair of call sites), all other sites keeping insertion order - the output must '
         'be byte-identical to the default-order output; (b) the whole corpus is compiled in fresh processes under '
-        'PYTHONHASHSEED 0..5 (thorough 0..15) and the per-program digests must agree; the programs with non-ASCII text (string API and file API) and 40 others also in fresh processes with other environments (C locale without UTF-8 mode, UTF-8 mode, another working directory and time zone, python -O); (c) in one process every ordered pair '
+        'PYTHONHASHSEED 0..5 (thorough 0..15) and the per-program digests must agree; the programs with non-ASCII text (string API and file API), 40 others and 6 with debug_filename on and an absolute source path also in fresh processes with other environments (C locale without UTF-8 mode, UTF-8 mode, another working directory and time zone, python -O); (c) in one process every ordered pair '
         'of corpus programs (from a subset, incl. the same text under other options: debug_filename with different file names, the file API and the library\'s default options object, a CompilerContext instance) is compiled before the target and the target\'s output compared with its output '
         'in a fresh state; (d) the whole corpus is compiled in one process in 3 orders (forward, reverse, interleaved: every program after every other one; every third program also with the tracing options on, forward and reverse) and every output compared with the output of a child forked from a process that has never compiled anything. states = distinct (program, output digest) pairs; transitions = compiler invocations; non-trivial '
         '= the program has >= 2 fresh variables or a choice point was explored')
@@ -112,6 +112,13 @@ def compile_or_exc(text, opts=None):
             finally:
                 import shutil
                 shutil.rmtree(d, ignore_errors=True)
+        if opts == 'abs-filename':
+            # debug_filename on, the source named by an ABSOLUTE path (what is printed about the
+            # source must not depend on where the process happens to run)
+            class ACtx(impl.Ctx):
+                debug_filename = True
+                current_source_file = '/srv/project/src/prog.pl'
+            return impl.compiler.compile_prolog_from_string(text, ACtx)
         if opts in ('debug-parser', 'debug-all'):
             # tracing on (the trace goes to a discarded stream; the RETURNED code is what is compared)
             import io
@@ -333,6 +340,8 @@ for name, text in c18.non_ascii_corpus(%(tier)r):
     out[name + '@file'] = c18.digest(c18.compile_file_or_exc(text))
 for name, text in c18.env_corpus(%(tier)r):
     out[name] = c18.digest(c18.compile_or_exc(text))
+for name, text in c18.env_corpus(%(tier)r)[:6]:
+    out[name + '@abs-filename'] = c18.digest(c18.compile_or_exc(text, 'abs-filename'))
 sys.stdout.write(json.dumps(out))
 '''
 
@@ -473,6 +482,9 @@ def run_shard(spec):
         for name, text in env_corpus(tier):
             mine[name] = digest(compile_or_exc(text))
             texts[name] = text
+        for name, text in env_corpus(tier)[:6]:
+            mine[name + '@abs-filename'] = digest(compile_or_exc(text, 'abs-filename'))
+            texts[name + '@abs-filename'] = text
         for name, d in mine.items():
             acc.n['evaluations'] += 1
             acc.n['validated'] += 1
